@@ -27,6 +27,18 @@ def call_prim(ip, name, args, kwargs):
         if isinstance(x, Z):
             return ZBool(V.is_bool(x.t))
         return C(False)
+    if name == "is_fresh":
+        from .sym import SObj, LList, LDict
+        x = args[0]
+        return C(bool(getattr(x, "fresh", False)) if isinstance(x, (SObj, LList, LDict)) else False)
+    if name == "ApplyCallable":
+        from .interp import StarArgs
+        func, datum, a, kw = args
+        return ip.call(func, [datum, StarArgs(a)], {"**": kw})
+    if name == "forall_idx":
+        return _forall(ip, args[0], args[1])
+    if name == "Binds":
+        return _binds(ip, *args)
     if name == "implies":
         return ZBool(z3.Implies(_b(ip, args[0]), _b(ip, args[1])))
     if name == "Raises":
@@ -36,3 +48,62 @@ def call_prim(ip, name, args, kwargs):
         conds = [c for c, (tag, k) in outcomes if tag == "raise" and V.exc_isinstance(k, kind)]
         return ZBool(z3.Or(conds) if conds else z3.BoolVal(False))
     raise Unsupported(f"contract primitive {name}")
+
+
+def _binds(ip, func, args, kwargs):
+    """Binds(func, args, kwargs) for a concrete function: decided from the function's ast parameter list."""
+    from .sym import LTuple, LDict, ZSeq
+    f = func.v
+    node = ip.program.node_of(f)
+    a = node.args
+    pos = [p.arg for p in a.posonlyargs + a.args][1:]          # after the datum
+    n_required = len(pos) - len(a.defaults)
+    if isinstance(args, LTuple):
+        npos = len(args.items)
+    elif isinstance(args, ZSeq):
+        npos = None
+    else:
+        raise Unsupported("Binds: args shape")
+    if isinstance(kwargs, LDict):
+        keys = [k.v for k, _ in kwargs.pairs]
+    else:
+        keys = None
+    if npos is None:                    # symbolic number of positionals: fine iff there is a *args and no named params remain
+        ok = a.vararg is not None and (keys is None and a.kwarg is not None or keys is not None and all(
+            k in pos for k in keys) and not pos)
+        if keys is None:
+            ok = a.vararg is not None and a.kwarg is not None and not pos
+        return C(bool(a.vararg is not None and not pos and (keys == [] or (keys is None and a.kwarg is not None))))
+    if keys is None:                    # symbolic keywords: fine iff **kwargs exists and positionals fit and cover all named params
+        return C(bool(a.kwarg is not None and npos <= len(pos) and npos >= n_required or (a.kwarg is not None and not pos and npos == 0)))
+    if npos > len(pos) and a.vararg is None:
+        return C(False)
+    bound = set(pos[:npos])
+    for k in keys:
+        if k in bound:
+            return C(False)
+        if k in pos:
+            bound.add(k)
+        elif a.kwarg is None:
+            return C(False)
+    missing = [p for i, p in enumerate(pos) if p not in bound and i < n_required]
+    return C(not missing)
+
+
+def _forall(ip, n, fn):
+    """forall_idx(n, lambda j: P(j)):  for every 0 <= j < n, P(j)."""
+    from .comp import merged_bool, value_key
+    nn = ip.as_int(n)
+    if nn is None:
+        raise Unsupported("forall_idx bound")
+    mode = getattr(ip, "clause_mode", "goal")
+    if mode == "assume":
+        def fact(j, ip=ip, fn=fn, nn=nn):
+            body = merged_bool(ip, lambda sub: sub.call(fn, [ZInt(j)], {}), ("forall", value_key(fn), j.get_id()))
+            return z3.Implies(z3.And(j >= 0, j < nn), body)
+        ip.path.add_qfact(fact)
+        return C(True)
+    j = V.fresh("sk", V.I)
+    insts = ip.path.instances(j)
+    body = merged_bool(ip, lambda sub: sub.call(fn, [ZInt(j)], {}), ("forall", value_key(fn), j.get_id()))
+    return ZBool(z3.Implies(z3.And([j >= 0, j < nn] + insts), body))
